@@ -20,6 +20,9 @@ ASSUMPTIONS = ['the conservation theorem assumes the shape wfDx of the input tre
                '"each block is used at most once, nearest first" is the model itself, checked by the oracle and the stages, not a theorem against a separate specification']
 
 FOOTNOTE_DOCS = [
+    'PARA 1.\n  Some text.\n\n  FOOTNOTE 1\n    See also this note{{FOOTNOTE 1}} again.\n\n  FOOTNOTE 1\n    The real content.\n',
+    'x {{FOOTNOTE a}}\nFOOTNOTE a\n  first {{FOOTNOTE a}} inside\nFOOTNOTE a\n  second\nFOOTNOTE a\n  third\n',
+    'SEC 1\n  FOOTNOTE 1\n    self {{FOOTNOTE 1}}\n  SUBSEC (a)\n    FOOTNOTE 1\n      far away\n',
     'a {{FOOTNOTE 1}} b {{FOOTNOTE 2}}\nFOOTNOTE 1\n  one\nFOOTNOTE 2\n  two\n',
     'a {{FOOTNOTE 1}}\nb {{FOOTNOTE 1}}\nFOOTNOTE 1\n  first\nFOOTNOTE 1\n  second\nFOOTNOTE 1\n  third\n',
     'FOOTNOTE 1\n  x {{FOOTNOTE 1}}\n',
@@ -82,11 +85,20 @@ def _oracle(args):
     # a reference only gets the placeholder when no unused block with its marker is left anywhere in the document (the search widens
     # up to the root); the one exception is a reference inside a block of its own marker, which cannot take that block
     # ... directly, or once other notes have been moved: block a holds a reference b whose block holds a reference a
-    edges, Bm, Rm = {}, {}, {}
+    edges, Bm, Rm, Sm = {}, {}, {}, {}
+    blocks_seen = []
+    def refs_in(n, acc):
+        at = n.get('attribs') or {}
+        if at.get('displaced') == 'footnote': acc.add(at.get('marker'))
+        for key in ('heading', 'subheading', 'from', 'children'):
+            for k in (n.get(key, []) or []):
+                if isinstance(k, dict): refs_in(k, acc)
+        return acc
     def walk(n, inside):
         at = n.get('attribs') or {}
         if n.get('name') == 'displaced':
             Bm[at.get('marker')] = Bm.get(at.get('marker'), 0) + 1; inside = inside | {at.get('marker')}
+            blocks_seen.append((at.get('marker'), n))
         elif at.get('displaced') == 'footnote':
             Rm[at.get('marker')] = Rm.get(at.get('marker'), 0) + 1
             for b in inside: edges.setdefault(b, set()).add(at.get('marker'))
@@ -94,13 +106,19 @@ def _oracle(args):
             for k in n.get(key, []) or []:
                 if isinstance(k, dict): walk(k, inside)
     walk(d, frozenset())
-    def on_cycle(m):
-        seen, todo = set(), list(edges.get(m, ()))
+    def reaches(a, m):
+        seen, todo = set(), [a]
         while todo:
             x = todo.pop()
             if x == m: return True
             if x not in seen: seen.add(x); todo += list(edges.get(x, ()))
         return False
+    def on_cycle(m):
+        return any(reaches(x, m) for x in edges.get(m, ()))
+    # blocks that hold a reference leading back to their own marker: the only blocks such a reference can be unable to take
+    for m, n in blocks_seen:
+        if any(reaches(x, m) for x in refs_in(n, set())):
+            Sm[m] = Sm.get(m, 0) + 1
     Pm = {}
     for n in notes:
         if len(n) == 1 and n[0].tag == ns + 'p' and n[0].text == '(content missing)' and len(n[0]) == 0:
@@ -114,7 +132,9 @@ def _oracle(args):
     for m, pm in Pm.items():
         # every reference that did not get the placeholder used one block: what is left of the blocks with this marker
         left_m = Bm.get(m, 0) - (Rm.get(m, 0) - pm)
-        if left_m > 0 and not on_cycle(m):
+        # (blocks that hold a reference of their own marker - directly, or round a cycle - are the only ones such a reference may leave
+        # behind: any further unused block of that marker is within reach, the search widens up to the root)
+        if left_m > (Sm.get(m, 0) if on_cycle(m) else 0):
             return ('bad', 'a reference with marker %r got the placeholder although %d unused FOOTNOTE %s block(s) are left in the document' % (m, left_m, m), R, B)
     return ('ok', None, R, B)
 
